@@ -66,7 +66,8 @@ def main():
             dst = os.path.join(VERIF, "seeded", a.keep_as)
             os.makedirs(dst, exist_ok=True)
             for f in ("patch.diff", "demo.py"):
-                shutil.copy(os.path.join(cand, f), os.path.join(dst, f))
+                if os.path.realpath(os.path.join(cand, f)) != os.path.realpath(os.path.join(dst, f)):
+                    shutil.copy(os.path.join(cand, f), os.path.join(dst, f))
             meta["confirmed_by"] = {
                 "ran": [
                     "git worktree of /repo HEAD under /tmp; demo.py on HEAD -> exit %d" % res["demo_on_head"],
